@@ -15,7 +15,7 @@ import (
 // C19 Pool dispatch: each request to exactly one live worker.
 
 type C19Op struct {
-	Kind string `json:"kind"` // send | call | high | killworker | panicworker | add | remove
+	Kind string `json:"kind"` // send | slow | call | high | killworker | panicworker | add | remove
 	N    int    `json:"n"`
 }
 
@@ -55,7 +55,7 @@ func (c19) Generate(r *simkit.Rand, tier string) any {
 	for i, n := 0, r.Range(1, 3); i < n; i++ {
 		var ops []C19Op
 		for j, m := 0, r.Range(2, maxOps); j < m; j++ {
-			k := simkit.Pick(r, "send", "send", "send", "call", "call", "high", "killworker", "panicworker", "add", "remove")
+			k := simkit.Pick(r, "send", "send", "send", "slow", "call", "call", "high", "killworker", "killworker", "panicworker", "add", "remove")
 			ops = append(ops, C19Op{Kind: k, N: r.Range(1, 2)})
 		}
 		c.Clients = append(c.Clients, ops)
@@ -83,7 +83,10 @@ func (c19) Shrink(cc any) []any {
 	return out
 }
 
-type c19Item struct{ ID int }
+type c19Item struct {
+	ID   int
+	Slow bool // the worker stays in the handler for 300 simulated ms
+}
 type c19Ctl struct {
 	Do string
 	N  int
@@ -107,9 +110,15 @@ func (c19) Run(e *simkit.Env, cc any) {
 	wh := &Hooks{Name: "worker", Env: e, Slow: c.Slow}
 	lastWorkerTerm := 0
 	sendInv := map[int]int{}
+	busy := map[gen.PID]bool{}   // workers inside a slow handler
+	killed := map[gen.PID]bool{} // workers Node.Kill was called on (successfully)
 	wh.Terminate = func(p *Probe, reason error) {
 		mu.Lock()
-		lastWorkerTerm = e.Step()
+		// a killed worker is refused by the dispatcher from the moment Kill returned (that step is
+		// recorded by the killer); the others are out of reach only when they have terminated
+		if !killed[p.PID()] {
+			lastWorkerTerm = e.Step()
+		}
 		mu.Unlock()
 	}
 	wh.Init = func(p *Probe, args ...any) error {
@@ -129,6 +138,16 @@ func (c19) Run(e *simkit.Env, cc any) {
 		switch v := m.(type) {
 		case c19Item:
 			see(from, v.ID)
+			if v.Slow {
+				mu.Lock()
+				busy[p.PID()] = true
+				mu.Unlock()
+				e.Probe("worker-busy")
+				e.Sleep(300 * time.Millisecond)
+				mu.Lock()
+				delete(busy, p.PID())
+				mu.Unlock()
+			}
 		case string:
 			if v == "panic" {
 				panic("injected worker panic")
@@ -206,12 +225,12 @@ func (c19) Run(e *simkit.Env, cc any) {
 			for j, op := range ops {
 				id := (ci+1)*100 + j
 				switch op.Kind {
-				case "send":
+				case "send", "slow":
 					mu.Lock()
 					senderOf[id] = p.PID()
 					sendInv[id] = e.Step()
 					mu.Unlock()
-					if err := p.Send(poolPID, c19Item{ID: id}); err == nil {
+					if err := p.Send(poolPID, c19Item{ID: id, Slow: op.Kind == "slow"}); err == nil {
 						mu.Lock()
 						sent[id] = "send"
 						mu.Unlock()
@@ -239,11 +258,27 @@ func (c19) Run(e *simkit.Env, cc any) {
 					if len(workers) > 0 {
 						target = workers[(id*7)%len(workers)]
 					}
+					if op.Kind == "killworker" && id%3 != 0 {
+						// prefer a worker that is inside a handler right now
+						for _, w := range workers {
+							if busy[w] {
+								target = w
+								break
+							}
+						}
+					}
 					mu.Unlock()
 					if op.Kind == "killworker" {
 						if n.Kill(target) == nil {
 							mu.Lock()
 							crashed++
+							killed[target] = true
+							if busy[target] {
+								e.Probe("busy-worker-killed")
+							}
+							if s := e.Step(); s > lastWorkerTerm {
+								lastWorkerTerm = s
+							}
 							mu.Unlock()
 							e.Probe("worker-crashed")
 						}
@@ -366,7 +401,7 @@ func (c19) Run(e *simkit.Env, cc any) {
 		}
 	} else {
 		if lateMissing > unhandled {
-			e.Fail("C19/lost-after-crash", "%d items sent after the last worker had finished terminating were never handled (pool counted %d unhandled): a dead worker found at dispatch must be replaced and the message handed to the replacement", lateMissing, unhandled)
+			e.Fail("C19/lost-after-crash", "%d items sent after the last Kill of a worker had returned and the last crashed worker had finished terminating were never handled (pool counted %d unhandled): a dead worker found at dispatch must be replaced and the message handed to the replacement", lateMissing, unhandled)
 			return
 		}
 		per := c.Mailbox + 1
